@@ -80,6 +80,10 @@ def run(tier, replay=None):
                 (0.5, 0.0), (-0.5, math.pi / 4), (math.sqrt(0.5), math.pi / 3), (0.999999999, 2.0), (-0.999999999, -2.0)]
         for _ in range(60 if tier == "quick" else 600):
             dirs.append((rng.uniform(-1, 1), rng.uniform(-math.pi, math.pi)))
+        # near-pole stratum: sin(theta) from 1e-6 to 1e-2, where 1 - x*x cancels
+        for _ in range(40 if tier == "quick" else 400):
+            t = rng.loguniform(1e-12, 1e-4)
+            dirs.append(((1.0 - t) * (1 if rng.randint(0, 1) else -1), rng.uniform(-math.pi, math.pi)))
         df = os.path.join(tmp, "dirs.txt")
         open(df, "w").write("".join("%s %s\n" % (float(x).hex(), float(p).hex()) for x, p in dirs))
         hf = os.path.join(tmp, "harm.txt")
